@@ -247,6 +247,16 @@ func randCents(r *rand.Rand) Dec {
 	}
 }
 
+// randCentsOrZero is randCents, except that one row in thirty carries the amount 0.00
+// (card verifications, waived fees): the row still is a booking row.
+func randCentsOrZero(r *rand.Rand, st *Statement) Dec {
+	if r.Intn(30) == 0 {
+		st.feature("zero-amount")
+		return Cents(0)
+	}
+	return randCents(r)
+}
+
 // ------------------------------------------------------------------ effects
 
 func eff(kv ...any) map[string]*big.Rat {
